@@ -119,17 +119,25 @@ def all_actions(s: dict, sizeacts: bool) -> list[dict]:
 _BENCH = []
 
 
-def run_group(gid: str, h: list[dict], sizeacts: bool, fanout: bool = True) -> dict:
+def run_group(gid: str, h: list[dict], sizeacts: bool, fanout: bool = True, xsd: bool = False) -> dict:
+    """xsd=True: the XSD monitor's verdict on the slide part is logged after every real call ("x": error signatures) so that the
+    same histories serve as a host of C03 (mbt/checks/c03.py)."""
     if not _BENCH:
         _BENCH.append(Bench())
     b = _BENCH[0]
+    if xsd:
+        from mbt.monitor import xsd as X
+        mon = lambda: X.errors(b.slide._element)  # noqa: E731
+    else:
+        mon = lambda: []  # noqa: E731
+    base = mon()
     gf = b.create(h[0])
     created = project(gf)
     b.set_texts(gf, h[0]["txt"])
-    path = [{"a": h[0], "out": "ok", "t": project(gf)}]
+    path = [{"a": h[0], "out": "ok", "t": project(gf), "x": mon()}]
     for a in h[1:]:
         out = b.apply(gf, a)
-        path.append({"a": a, "out": out, "t": project(gf)})
+        path.append({"a": a, "out": out, "t": project(gf), "x": mon()})
     final = path[-1]["t"]
     steps = []
     if fanout:
@@ -137,8 +145,9 @@ def run_group(gid: str, h: list[dict], sizeacts: bool, fanout: bool = True) -> d
             g2, el = b.clone(gf)
             out = b.apply(g2, a)
             t = project(g2)
+            x = mon()
             b.drop(el)
             same = t == final
-            steps.append({"a": a, "out": out, "same": same, "t": [] if same else t})
+            steps.append({"a": a, "out": out, "same": same, "t": [] if same else t, "x": x})
     b.drop(gf._element)
-    return {"id": gid, "h": h, "created": created, "path": path, "steps": steps}
+    return {"id": gid, "h": h, "created": created, "path": path, "steps": steps, "xbase": base}
